@@ -1827,6 +1827,11 @@ def classify(loop):
             if rest == acc and not mentions_acc(label, loop.id):
                 out[v] = Fold("ARGSET", of=bestv, init=init, label=label, ties=False)
                 continue
+            if rest[0] == "ite" and rest[3] == acc and rest[2] == simp(("cat", acc, ("list", (label,)))) and mentions_acc(rest[1], loop.id) \
+                    and mentions(rest[1], lambda x: x[0] == "call" and x[1] in ("math.isclose", "isclose", "numpy.isclose")):
+                # the tie branch compares within a tolerance while the reset branch compares exactly
+                out[v] = Fold("ARGSET", of=bestv, init=init, label=label, ties="band", tie_cond=rest[1])
+                continue
             if rest[0] == "ite" and rest[3] == acc and rest[2] == simp(("cat", acc, ("list", (label,)))) \
                     and rest[1][0] == "cmp" and rest[1][1] == "==" and mentions_acc(rest[1], loop.id):
                 # reset and tie are judged on different keys
